@@ -159,19 +159,23 @@ func runC08(c *Ctx) {
 		in := call.(ssa.Instruction)
 		ev := core.ErrValue(call)
 		al := core.Aliases(r.Receiver, ev)
-		unwrapTrue := core.CondEdges(r.Receiver, true, func(cond ssa.Value) (bool, bool) {
+		unwrapTrue := core.PredEdges(r.Receiver, true, func(cond ssa.Value) (bool, bool) {
 			cl, ok := core.CallTo(cond, func(f *types.Func) bool {
 				if f.Pkg() == nil || (f.Pkg().Path() != "errors" && f.Pkg().Path() != "github.com/go-faster/errors") {
 					return false
 				}
 				return f.Name() == "As" || f.Name() == "Is"
 			})
-			if !ok || len(cl.Call.Args) < 1 || !al[cl.Call.Args[0]] {
+			if !ok || len(cl.Call.Args) < 1 {
+				return false, false
+			}
+			// the error itself, or - inside a boolean helper - the helper's error parameter
+			if _, isParam := cl.Call.Args[0].(*ssa.Parameter); !al[cl.Call.Args[0]] && !(isParam && cl.Parent() != r.Receiver) {
 				return false, false
 			}
 			return true, true
 		})
-		timeoutTrue := core.CondEdges(r.Receiver, true, func(cond ssa.Value) (bool, bool) {
+		timeoutTrue := core.PredEdges(r.Receiver, true, func(cond ssa.Value) (bool, bool) {
 			cl, ok := cond.(*ssa.Call)
 			if !ok {
 				return false, false
@@ -179,7 +183,7 @@ func runC08(c *Ctx) {
 			f := core.CalleeFunc(cl)
 			return true, f != nil && f.Name() == "Timeout"
 		})
-		isDeadline := core.CondEdges(r.Receiver, true, func(cond ssa.Value) (bool, bool) {
+		isDeadline := core.PredEdges(r.Receiver, true, func(cond ssa.Value) (bool, bool) {
 			// errors.Is(err, os.ErrDeadlineExceeded) form needs no Timeout()
 			cl, ok := core.CallTo(cond, func(f *types.Func) bool { return f.Name() == "Is" })
 			if !ok || len(cl.Call.Args) != 2 {
